@@ -292,6 +292,13 @@ class Interp:
                 raise
             except (TypeError, ValueError, IndexError, KeyError, ZeroDivisionError, AttributeError) as e:
                 # a native/python-level error while running a builtin or a transfer function on concrete data
+                if isinstance(e, TypeError) and '/ttsa/' in getattr(getattr(f, '__code__', None), 'co_filename', ''):
+                    import inspect
+                    try:
+                        inspect.signature(f).bind(*args, **kwargs)
+                    except TypeError:
+                        # the MODEL of a library function does not accept these arguments; whether the real function does is unknown
+                        raise AnalysisError(f'library model {getattr(f, "__qualname__", f)} does not accept the arguments of this call ({e}) at {self.where()}')
                 raise self.native_error(e, node)
         raise AnalysisError(f'cannot call {f!r} at {self.where()}')
 
